@@ -8,6 +8,26 @@ VERIF = os.path.dirname(os.path.dirname(os.path.abspath(__file__)))
 
 # property -> (technique, clause decided, trusted base / what is not decided, DESIGN ref)
 CLAIMS = {
+    "C02": ("table extraction from the AST (string literals, switch / if-chain enum tables) and set / inverse-table "
+            "comparison between writer and reader",
+            "every element / attribute name the writer emits is asked for by the reader and vice versa; every "
+            "enum->string switch of the writer is inverted by the reader's string->enum chain (collapses listed); the "
+            "element kinds that may omit size-in-bits are exactly those the reader defaults to the address size",
+            "that attribute values are computed and re-interpreted consistently (sizes, offsets, ids) is runtime; the "
+            "comparison is global over names, not per element",
+            "§3 R-VOCAB, R-ENUMTAB, R-DEFSZ; §4 C02"),
+    "C03": ("typestate dataflow on temp_file (written -> flushed before get_path is handed out) + the C02 vocabulary "
+            "tables",
+            "the temporary document of abilint --diff / abidw --abidiff is flushed on every path before it is re-read "
+            "by path; no writer-only name exists (it could not survive read+write)",
+            "byte equality of the re-emitted document (ordering, ids) is runtime; iteration order is decided under C14",
+            "§3 R-FLUSH, R-VOCAB; §4 C03"),
+    "C36": ("AST/CFG rules: return-value provenance of the writer entry points, discarded-result check and "
+            "must-pass-through (flush then stream test) path exploration at every call site in abidw/abilint",
+            "the writer entry points return the state of the stream; abidw and abilint never discard that result and "
+            "every path to a success exit flushes/closes the stream and then tests it",
+            "that libstdc++ reports a failed write(2) through the stream state after flush/close",
+            "§3 R-WRITERES; §4 C36"),
     "C33": ("non-null dataflow with a nullable-producer table (reader + tools' ABIXML read paths), size-fact dataflow "
             "for constant subscripts, assertion classification by a one-step input slice with dominating-check "
             "recognition",
